@@ -41,7 +41,8 @@ def run_one(sid: str) -> dict:
         if m:
             sigs.setdefault(m.group(1), []).append(m.group(2) + (" [no-failing-input-found]" if "no-failing" in m.group(3) else ""))
     # a check that only says "the Lean build is broken" (someone is editing the proofs) has detected nothing
-    real = [c for c in det if any(not x.startswith("unproved_lean-build") for x in sigs.get(c, ["?"]))]
+    real = [c for c in det if any(not x.startswith(("unproved_lean-build", "unproved_forbidden-tokens"))
+                                  for x in sigs.get(c, ["?"]))]
     if len(real) != len(det):
         meta.setdefault("notes", []).append(f"{time.strftime('%Y-%m-%d %H:%M')}: lean-build noise ignored for {sorted(set(det) - set(real))}")
     det = real
